@@ -225,7 +225,8 @@ func genYValsCase(r *Rng) Case {
 	for _, id := range g.idents {
 		idents = append(idents, id)
 	}
-	return Case{"k": "yvals", "idents": idents, "type": t, "probes": toAny(keys)}
+	// the typedefs of a chain in ma, mb (which knows ma as q) and mc, or all of them in mc
+	return Case{"k": "yvals", "idents": idents, "type": t, "probes": toAny(keys), "spread": r.Intn(4)}
 }
 
 func genYVals(r *Rng, tier string, n int, emit func(Case)) {
@@ -237,8 +238,21 @@ func genYVals(r *Rng, tier string, n int, emit func(Case)) {
 // ---- rendering ---------------------------------------------------------------------------------------------
 
 type vrender struct {
-	typedefs []string
+	typedefs []string          // those of module mc
+	inMod    map[string][]string // those placed in ma / mb
 	n        int
+	spread   int // how the typedefs of a chain are spread over the modules (0: all in mc)
+}
+
+// how module `from` names a typedef of module `to`: mb imports ma under the prefix q, which mc does not know
+func tdRef(from, to, name string) string {
+	if from == to {
+		return name
+	}
+	if from == "mb" && to == "ma" {
+		return "q:" + name
+	}
+	return to + ":" + name
 }
 
 func eiStmts(m map[string]any) string {
@@ -268,6 +282,7 @@ func (v *vrender) typeStmt(t map[string]any) string {
 	base := cstr(t, "base")
 	levels := carr(t, "levels")
 	prev := strings.Split(base, ":")[0]
+	prevMod := "" // the module of the typedef `prev` ("" = a built-in type)
 	out := ""
 	for i, l := range levels {
 		lv := l.(map[string]any)
@@ -308,17 +323,41 @@ func (v *vrender) typeStmt(t map[string]any) string {
 				body.WriteString(" pattern '" + cstr(pm, "src") + "';")
 			}
 		}
-		stmt := "type " + prev + ";"
+		// where this level is written: the leaf in mc; a typedef in ma, mb or mc, never before the one it refers to
+		here := "mc"
+		if i < len(levels)-1 && v.spread > 0 {
+			rank := map[string]int{"": 0, "ma": 0, "mb": 1, "mc": 2}[prevMod]
+			pos := i + v.spread - 1
+			if pos < rank {
+				pos = rank
+			}
+			if pos > 2 {
+				pos = 2
+			}
+			here = []string{"ma", "mb", "mc"}[pos]
+		}
+		ref := prev
+		if prevMod != "" {
+			ref = tdRef(here, prevMod, prev)
+		}
+		stmt := "type " + ref + ";"
 		if body.Len() > 0 {
-			stmt = "type " + prev + " {" + body.String() + " }"
+			stmt = "type " + ref + " {" + body.String() + " }"
 		}
 		if i == len(levels)-1 {
 			out = stmt
 		} else {
 			v.n++
 			tn := fmt.Sprintf("t%d", v.n)
-			v.typedefs = append(v.typedefs, "  typedef "+tn+" { "+stmt+" }\n")
-			prev = tn
+			if here == "mc" {
+				v.typedefs = append(v.typedefs, "  typedef "+tn+" { "+stmt+" }\n")
+			} else {
+				if v.inMod == nil {
+					v.inMod = map[string][]string{}
+				}
+				v.inMod[here] = append(v.inMod[here], "  typedef "+tn+" { "+stmt+" }\n")
+			}
+			prev, prevMod = tn, here
 		}
 	}
 	return out
@@ -327,7 +366,7 @@ func (v *vrender) typeStmt(t map[string]any) string {
 func yvalsModules(c Case) []string {
 	var ma, mb, mc strings.Builder
 	ma.WriteString("module ma { namespace \"urn:ma\"; prefix ma;\n")
-	mb.WriteString("module mb { namespace \"urn:mb\"; prefix mb; import ma { prefix ma; }\n")
+	mb.WriteString("module mb { namespace \"urn:mb\"; prefix mb; import ma { prefix q; }\n")
 	mc.WriteString("module mc { namespace \"urn:mc\"; prefix mc; import ma { prefix ma; } import mb { prefix mb; }\n")
 	for _, i := range carr(c, "idents") {
 		id := i.(map[string]any)
@@ -337,11 +376,20 @@ func yvalsModules(c Case) []string {
 			w.WriteString("  identity " + cstr(id, "name") + ";\n")
 		} else {
 			b = strings.TrimPrefix(b, cstr(id, "mod")+":")
+			if cstr(id, "mod") == "mb" && strings.HasPrefix(b, "ma:") {
+				b = "q:" + strings.TrimPrefix(b, "ma:")
+			}
 			w.WriteString("  identity " + cstr(id, "name") + " { base " + b + "; }\n")
 		}
 	}
-	v := &vrender{}
+	v := &vrender{spread: cint(c, "spread")}
 	stmt := v.typeStmt(cmap(c, "type"))
+	for _, td := range v.inMod["ma"] {
+		ma.WriteString(td)
+	}
+	for _, td := range v.inMod["mb"] {
+		mb.WriteString(td)
+	}
 	for _, td := range v.typedefs {
 		mc.WriteString(td)
 	}
